@@ -61,6 +61,9 @@ pub struct SimSource {
     pending16: u32,
     /// fail with this error kind once `fail_at` bytes have been delivered
     pub fail_at: Option<(usize, io::ErrorKind)>,
+    /// further faults after `fail_at` has fired, in ascending position: the source goes on
+    /// delivering after each of them (transient errors)
+    pub more_faults: Vec<(usize, io::ErrorKind)>,
     pub reads: u64,
 }
 
@@ -70,7 +73,7 @@ impl SimSource {
         self.data.len()
     }
     pub fn new(data: Arc<Vec<u8>>, frag: Frag, pending16: u32) -> Self {
-        SimSource { data, pos: 0, frag, pending16, fail_at: None, reads: 0 }
+        SimSource { data, pos: 0, frag, pending16, fail_at: None, more_faults: Vec::new(), reads: 0 }
     }
     pub fn drawn(data: Arc<Vec<u8>>) -> Self {
         let frag = draw_frag();
@@ -93,7 +96,7 @@ impl AsyncRead for SimSource {
         }
         if let Some((at, kind)) = self.fail_at {
             if self.pos >= at {
-                self.fail_at = None;
+                self.fail_at = if self.more_faults.is_empty() { None } else { Some(self.more_faults.remove(0)) };
                 simkit::count("fault:src-read-error");
                 return Poll::Ready(Err(kind.into()));
             }
@@ -125,6 +128,9 @@ pub enum WriteFault {
     Error(io::ErrorKind),
     /// the k-th write call writes this many bytes and then the process dies
     Crash(usize),
+    /// the k-th write call takes only a prefix (a legal short write), the call after it fails
+    /// with this kind (Interrupted: a caller that retries must go on where the prefix ended)
+    ShortThenError(usize, io::ErrorKind),
 }
 
 pub struct SimFileInner {
@@ -142,6 +148,12 @@ pub struct SimFileInner {
     pub fixed_size: bool,
     /// early EOF: reads see only this many bytes
     pub eof_at: Option<u64>,
+    /// the k-th read call (counted over the file's life) fails with this kind, once; a read
+    /// just before it is cut short so that the failing one comes in the middle of something
+    pub read_fault: Option<(u64, io::ErrorKind)>,
+    pub read_calls: u64,
+    /// set by ShortThenError: the next write call fails with this
+    pub fail_next_write: Option<io::ErrorKind>,
     /// called before every write lands: the invariant monitor of C03
     pub on_write: Option<Box<dyn FnMut(&[u8], u64, &[u8]) + Send>>,
 }
@@ -164,6 +176,9 @@ impl SimFile {
             crashed: false,
             fixed_size: false,
             eof_at: None,
+            read_fault: None,
+            read_calls: 0,
+            fail_next_write: None,
             on_write: None,
         })))
     }
@@ -212,10 +227,24 @@ impl AsyncRead for SimFile {
         if maybe_pending(g.pending16, cx) {
             return Poll::Pending;
         }
+        let call = g.read_calls;
+        g.read_calls += 1;
+        let mut cut_short = false;
+        if let Some((k, kind)) = g.read_fault {
+            if call == k {
+                g.read_fault = None;
+                simkit::count("fault:file-read-error");
+                return Poll::Ready(Err(kind.into()));
+            }
+            cut_short = call + 1 == k;
+        }
         let len = g.eof_at.map(|e| (e as usize).min(g.data.len())).unwrap_or(g.data.len());
         let pos = g.pos as usize;
         let avail = len.saturating_sub(pos);
-        let n = frag_len(g.read_frag, avail, buf.remaining(), g.data.len());
+        let mut n = frag_len(g.read_frag, avail, buf.remaining(), g.data.len());
+        if cut_short && n > 1 {
+            n = (n / 2).max(1);
+        }
         if n > 0 {
             buf.put_slice(&g.data[pos..pos + n]);
         }
@@ -271,6 +300,10 @@ impl AsyncWrite for SimFile {
         }
         let call = g.write_calls;
         g.write_calls += 1;
+        if let Some(kind) = g.fail_next_write.take() {
+            simkit::count("fault:file-write-error");
+            return Poll::Ready(Err(kind.into()));
+        }
         let mut n = frag_len(g.write_frag, src.len(), usize::MAX, src.len());
         let mut crash = false;
         if let Some((k, fault)) = g.write_fault.clone() {
@@ -285,6 +318,15 @@ impl AsyncWrite for SimFile {
                         simkit::count("fault:file-crash");
                         n = src.len().min(prefix);
                         crash = true;
+                    }
+                    WriteFault::ShortThenError(prefix, kind) => {
+                        if src.len() > 1 {
+                            n = prefix.clamp(1, src.len() - 1);
+                            g.fail_next_write = Some(kind);
+                        } else {
+                            simkit::count("fault:file-write-error");
+                            return Poll::Ready(Err(kind.into()));
+                        }
                     }
                 }
             }
